@@ -259,7 +259,8 @@ def m_into_iter(eng, ctx, f, path, args, dty):
         return Native("liter", (w.data, 0))
     if isinstance(w, Native) and w.kind == "lmap":
         return Native("liter", (tuple(Agg({0: k, 1: x}) for k, x in w.data), 0))
-    raise Unsupported(f"into_iter of {w}")
+    from . import models_std          # everything else (Option, keyed maps, adaptor chains ...): the general model
+    return models_std.m_vec_into_iter(eng, ctx, f, path, args, dty)
 
 
 def m_next(eng, ctx, f, path, args, dty):
@@ -272,7 +273,8 @@ def m_next(eng, ctx, f, path, args, dty):
             return Enum(0, {}, "Option")
         eng.store_ptr(ctx, args[0], Native(it.kind, (items, pos + 1)))
         return Enum(1, {1: Agg({0: items[pos]})}, "Option")
-    raise Unsupported(f"Iterator::next on {it}")
+    from . import models_std
+    return models_std.m_iter_next(eng, ctx, f, path, args, dty)
 
 
 def m_vec_deref(eng, ctx, f, path, args, dty):
@@ -423,7 +425,11 @@ def m_collect(eng, ctx, f, path, args, dty):
     target = path.split("collect")[-1]
     if "String" in target and "Vec" not in target:
         return m_collect_string(eng, ctx, f, path, args, dty)
-    elems, maps = chain_elements(eng, ctx, args[0])
+    try:
+        elems, maps = chain_elements(eng, ctx, args[0])
+    except Unsupported:
+        from . import models_std          # adaptor chains beyond map-over-a-list: the general iterator model
+        return models_std.m_iter_collect(eng, ctx, f, path, args, dty)
 
     def script(c):
         out = []
